@@ -143,22 +143,43 @@ def _mk_classes():
         def _yatiml_sweeten(cls, node: yatiml.Node) -> None:
             node.remove_attributes_with_default_values(cls)
     ns['S4'] = [Cfg, VCfg]
+
+    class H:
+        """a base class whose hooks are visible in the result: whether they run depends on whether THIS function registered H"""
+        def __init__(self, x: int) -> None:
+            self.x = x
+
+        @classmethod
+        def _yatiml_savorize(cls, node: yatiml.Node) -> None:
+            node.rename_attribute('old', 'g')
+
+        @classmethod
+        def _yatiml_sweeten(cls, node: yatiml.Node) -> None:
+            node.rename_attribute('g', 'old')
+
+    class G(H):
+        def __init__(self, x: int, g: int = 0) -> None:
+            super().__init__(x)
+            self.g = g
+    ns['S5'] = [G, H]        # G with its base registered
+    ns['S5d'] = [G]          # the same G, base not registered with this function
     for k, v in ns.items():
         for c in v:
             c._fp_open = True          # let the fingerprint look inside the user's classes
-            c._set = k
+            if '_set' not in vars(c):
+                c._set = k
     return ns
 
 
 SETS = _mk_classes()
 ROOT = {'S1': SETS['S1'][0], 'S2': SETS['S2'][0], 'S3': SETS['S3'][0], 'S3b': SETS['S3b'][0], 'SX': SETS['SX'][0], 'SP': SETS['SP'][0],
-        'S4': SETS['S4'][0]}
+        'S4': SETS['S4'][0], 'S5': SETS['S5'][0], 'S5d': SETS['S5d'][0]}
 # dump functions: name -> classes registered
 DUMPERS = collections.OrderedDict([('S1', SETS['S1']), ('S2', SETS['S2']), ('S3', SETS['S3']), ('S4a', SETS['S4'][:1]),
                                    ('S4b', SETS['S4'])])
 DOCS = collections.OrderedDict([
     ('v1', '{x: 1}'), ('v2', '{x: a}'), ('tA', '!A {x: 1}'), ('tB', '!B {x: 1, z: 2}'), ('bad', '{q: 1}'), ('err', '{x: 1'),
-    ('l1', '[{x: 1}]'), ('d1', '{k: 1}'), ('b2', '{x: 1, w: 2}'),
+    ('l1', '[{x: 1}]'), ('d1', '{k: 1}'), ('b2', '{x: 1, w: 2}'), ('o1', '{x: 1, old: 5}'), ('o2', '{x: 2, g: 3}'),
 ])
 # load functions: name -> (class set, result type); several share a class set (or have none) and differ in the result type
 LOADERS = collections.OrderedDict([
@@ -186,6 +207,10 @@ def value(name):
         return SETS['S4'][0]([], 1)
     if name == 'vcfg1':
         return SETS['S4'][1](['a'], 1)
+    if name == 'g1':
+        return SETS['S5'][0](1)
+    if name == 'g2':
+        return [SETS['S5'][0](2, 3), SETS['S5'][0](4)]
     if name == 'dup3':
         # one object referenced twice: fine for YAML (anchor), refused midway by the JSON emitter (RuntimeError)
         o = SETS['S3'][1](1, 2)
@@ -196,11 +221,18 @@ def value(name):
 VALUES = {'S1': ['a1', 'a2'], 'S2': ['a2', 'a1'], 'S3': ['a3', 'b3', 'a1', 'dup3'], 'S4a': ['cfg3', 'cfg1'],
           'S4b': ['vcfg1', 'cfg3']}
 
+# functions that only take part in the cross-function histories (not in the breadth-first alphabet)
+X_LOADERS = collections.OrderedDict([('S5', ('S5', None)), ('S5d', ('S5d', None))])
+X_LOADER_DOCS = {'S5': ['v1', 'o1', 'o2'], 'S5d': ['v1', 'o1', 'o2']}
+X_DUMPERS = collections.OrderedDict([('S5', SETS['S5']), ('S5d', SETS['S5d'])])
+X_VALUES = {'S5': ['g1', 'g2'], 'S5d': ['g1', 'g2']}
 MK_OPS = [('mkL', s) for s in LOADERS] + [('mkD', s) for s in DUMPERS] + \
          [('mkJ', s) for s in ('S1', 'S2', 'S3')]
 CALL_OPS = [('L', s, d) for s in LOADERS for d in LOADER_DOCS[s]] + \
            [('D', s, v) for s in DUMPERS for v in VALUES[s]] + [('J', s, v) for s in ('S1', 'S2', 'S3') for v in VALUES[s]]
 ALL_OPS = MK_OPS + CALL_OPS
+X_CALL_OPS = [('L', s, d) for s in X_LOADERS for d in X_LOADER_DOCS[s]] + [('D', s, v) for s in X_DUMPERS for v in X_VALUES[s]] + \
+             [('J', s, v) for s in X_DUMPERS for v in X_VALUES[s]]
 
 
 def canon(v, depth=0):
@@ -231,12 +263,31 @@ def outcome(fn, *args, **kw):
         return 'EXC:' + type(e).__name__
 
 
+def scribble(v, depth=0):
+    """change the loaded value in place, all the way down (attributes, list items, dict entries)"""
+    if depth > 10:
+        return
+    if isinstance(v, list):
+        for x in v:
+            scribble(x, depth + 1)
+        v.append('scribbled')
+    elif isinstance(v, dict):
+        for x in list(v.values()):
+            scribble(x, depth + 1)
+        v['scribbled'] = 1
+    elif hasattr(v, '__dict__') and hasattr(type(v), '_set'):
+        for x in list(vars(v).values()):
+            scribble(x, depth + 1)
+        for name in list(vars(v)):
+            setattr(v, name, 'scribbled')
+
+
 def apply_op(slots, op):
     """execute one operation on the slot table; returns the outcome text"""
     k = op[0]
     if k == 'mkL':
         s = op[1]
-        cset, shape = LOADERS[s]
+        cset, shape = LOADERS[s] if s in LOADERS else X_LOADERS[s]
         if s == 'ANY':
             slots[('L', s)] = yatiml.load_function()
         elif cset is None:
@@ -249,13 +300,21 @@ def apply_op(slots, op):
             slots[('L', s)] = yatiml.load_function(ROOT[s], *SETS[s][1:])
         return 'created'
     if k == 'mkD':
-        slots[('D', op[1])] = yatiml.dumps_function(*DUMPERS[op[1]])
+        slots[('D', op[1])] = yatiml.dumps_function(*(DUMPERS[op[1]] if op[1] in DUMPERS else X_DUMPERS[op[1]]))
         return 'created'
     if k == 'mkJ':
         slots[('J', op[1])] = yatiml.dumps_json_function(*SETS[op[1]])
         return 'created'
     if k == 'L':
-        return outcome(slots[('L', op[1])], DOCS[op[2]])
+        box = []
+
+        def load_and_keep(text):
+            box.append(slots[('L', op[1])](text))
+            return box[0]
+        out = outcome(load_and_keep, DOCS[op[2]])
+        if box:
+            scribble(box[0])       # the caller owns the result: whatever it does to it must not show in a later call
+        return out
     if k == 'D':
         return outcome(slots[('D', op[1])], value(op[2]))
     if k == 'J':
@@ -343,7 +402,7 @@ def explore_histories(tier, res):
     _, fp0, probes0, snap0 = base
     # minimal histories: creation + call
     minimal = {}
-    for op in CALL_OPS:
+    for op in CALL_OPS + X_CALL_OPS:
         st, r = history.in_child(run_history, [creator_of(op), op])
         if st != 'ok':
             raise core.HarnessError('minimal history failed: %s %s' % (op, r))
@@ -402,11 +461,18 @@ def explore_histories(tier, res):
     # same names or share a base class object with the first (every pair of such functions, every pair of their calls)
     related = [('L', 'S3', 'S3b'), ('L', 'S3b', 'S3'), ('L', 'S1', 'S2'), ('L', 'S2', 'S1'), ('L', 'S1', 'S3'), ('L', 'S3', 'S1'),
                ('D', 'S1', 'S2'), ('D', 'S2', 'S1'), ('D', 'S4a', 'S4b'), ('D', 'S4b', 'S4a'), ('J', 'S1', 'S2'), ('J', 'S3', 'S1')]
+    # a class whose registered base has hooks, registered with and without that base (the same class objects)
+    related += [(k, a, b) for k in ('L', 'D', 'J') for a, b in (('S5', 'S5d'), ('S5d', 'S5'))]
+    # the same function used twice (the second call must not see what the caller did to the first result)
+    related += [('L', f, f) for f in LOADERS]
     cross = []
     for kind, fa, fb in related:
-        for o1 in [o for o in CALL_OPS if o[0] == kind and o[1] == fa]:
-            for o2 in [o for o in CALL_OPS if o[0] == kind and o[1] == fb]:
-                cross.append((creator_of(o1), o1, creator_of(o2), o2))
+        for o1 in [o for o in CALL_OPS + X_CALL_OPS if o[0] == kind and o[1] == fa]:
+            for o2 in [o for o in CALL_OPS + X_CALL_OPS if o[0] == kind and o[1] == fb]:
+                if fa == fb:
+                    cross.append((creator_of(o1), o1, o2, o1))
+                else:
+                    cross.append((creator_of(o1), o1, creator_of(o2), o2))
     ctx = multiprocessing.get_context('fork')
     with ctx.Pool(core.NPROC) as pool:
         for h4, (st, r) in zip(cross, pool.imap(_run_one, cross, chunksize=4)):
@@ -418,7 +484,7 @@ def explore_histories(tier, res):
                 res.violation('C11:history:child-died', 'history %s: %s' % (list(h4), str(r)[:300]), pl)
                 continue
             outs, fp, pr, snap = r
-            for i in (1, 3):
+            for i in [j for j, o in enumerate(h4) if not o[0].startswith('mk')]:
                 if outs[i] != minimal[h4[i]]:
                     res.violation('C11:history:result-depends-on-history:%s' % h4[i][0],
                                   'in the history %s the call %s gives %s; in its minimal history it gives %s' % (
